@@ -250,7 +250,7 @@ theorem Inv.sync {s : Buf} {F T : List Nat} {c n : Nat} (h : Inv s F c T n) :
       s.sync.ps = s.ps ∧ s.sync.allocs = s.allocs ∧ s.sync.pptr = s.pptr ∧ s.sync.nextId = s.nextId := by
   rw [sync_eq h.nofault h.sy]
   have hsz := h.sz
-  refine ⟨⟨h.nofault, h.perm, h.fresh, h.nodup, h.cur, h.ep, h.pp0, h.pp1, h.total, by simp, by simp; omega, ?_⟩,
+  refine ⟨⟨h.nofault, h.perm, h.fresh, h.nodup, h.cur, h.ep, h.pp0, h.pp1, h.total, by simp, by simp; omega, ?_, h.tdom⟩,
     by simp; omega, rfl, rfl, rfl, rfl, rfl, rfl⟩
   cases h.layout with
   | inl hle hs hT hp he => exact Layout.inl hle hs hT hp he
@@ -293,5 +293,108 @@ theorem St.run {α} {ps a0 : Nat} : ∀ (ops : List (Op α)) {s : Stream α} {bs
     simpa [Stream.run] using this
 
 theorem St.begin {α} (ps a0 : Nat) : St (Stream.begin ps a0 : Stream α) ps a0 [] := Or.inl ⟨rfl, rfl⟩
+
+/-! ### What `append_to_iovec` returns -/
+
+/-- The scatter list of an entry with full data pages `F`, last data page `c` holding `r` bytes and
+table pages `T`. -/
+def expectIov (ps : Nat) (F : List Nat) (c : Nat) (T : List Nat) (r : Nat) : Iov :=
+  match T with
+  | [] => F.map (·, ps) ++ [(c, r)]
+  | _ :: _ => (F.take (K - 1)).map (·, ps) ++ chainIov ps (tableCap ps) T (F.drop (K - 1)) c r
+
+theorem Inv.read {s : Buf} {F T : List Nat} {c n : Nat} (h : Inv s F c T n) (hsz : s.size = n)
+    (hfit : Fits s.ps n) : appendToIovec s.entry s.ps = some (expectIov s.ps F c T s.pptr) := by
+  have hps := hfit.1
+  have hps' : s.ps ≠ 0 := by omega
+  have hn := h.total
+  have hK := K_pos
+  unfold appendToIovec appendToIovec.m
+  simp only [hps', if_false, Buf.entry, hsz]
+  cases h.layout with
+  | inl hle hs hT hp he =>
+    subst hT
+    have hle' : F.length + 1 ≤ K := by simpa using hle
+    have hng : ¬ (n > K * s.ps) := by
+      have := Nat.mul_le_mul_right s.ps hle'
+      rw [Nat.add_mul, Nat.one_mul] at this
+      have := h.pp1
+      omega
+    simp only [hng, if_false, hs, expectIov]
+    rw [hn]
+    exact pagesAppend_snoc hps c s.pptr [] h.pp0 h.pp1 F
+  | tbl t0 T' tl e hgt hT hs hc hl hm hp he =>
+    subst hT
+    have hKF : K ≤ F.length := by simp at hgt; omega
+    have hmul := Nat.mul_le_mul_right s.ps hKF
+    have hgtn : n > K * s.ps := by have := h.pp0; omega
+    have hpo : PageOK s.ps := hfit.2 hgtn
+    obtain ⟨hpe, hE2⟩ := hpo.eq
+    have hh8 := hdr_eq
+    have hp8 := ptr_eq
+    rw [hh8, hp8] at hpe
+    have hnlt : ¬ (s.ps < hdr) := by omega
+    have hEps : 0 < tableCap s.ps * s.ps := Nat.mul_pos (by omega) hps
+    have hfull0 : tableCap s.ps * s.ps ≠ 0 := by omega
+    have hK1 : K = (K - 1) + 1 := by omega
+    have hKm : K * s.ps = (K - 1) * s.ps + s.ps := by
+      conv => lhs; rw [hK1, Nat.add_mul, Nat.one_mul]
+    have hsub : K * s.ps - s.ps = (K - 1) * s.ps := by omega
+    have hlen1 : ((F ++ [c]).take (K - 1)).length = K - 1 := by
+      rw [List.length_take]; simp; omega
+    have htk : (F ++ [c]).take (K - 1) = F.take (K - 1) := List.take_append_of_le_length (by omega)
+    have hdr' : (F ++ [c]).drop (K - 1) = F.drop (K - 1) ++ [c] := List.drop_append_of_le_length (by omega)
+    have ha := pagesAppend_full hps (K - 1) s.slots (by rw [hs]; simp; omega)
+    have hst : s.slots.take (K - 1) = F.take (K - 1) := by
+      rw [hs, List.take_append_of_le_length (by omega), List.take_of_length_le (by omega), htk]
+    rw [hst] at ha
+    have hhead : s.slots[K - 1]? = some t0 := by
+      rw [hs, List.getElem?_append_right (by omega), hlen1]; simp
+    rw [hdr'] at hc
+    have hlenD : (F.drop (K - 1)).length = F.length - (K - 1) := by simp
+    have hK1F := Nat.mul_le_mul_right s.ps (show K - 1 ≤ F.length by omega)
+    have hsz2 : n - K * s.ps + s.ps = (F.drop (K - 1)).length * s.ps + s.pptr := by
+      rw [hlenD, Nat.sub_mul]; omega
+    have hb := tableAppend_chain hps (show 0 < tableCap s.ps by omega) c s.pptr h.pp0 h.pp1 T' t0
+      (F.drop (K - 1)) (n + 1) hc (by rw [← hsz2]; omega)
+    rw [← hsz2] at hb
+    simp only [hgtn, if_true, hnlt, if_false, hfull0, hsub, ha, hhead, expectIov]
+    simp [hb]
+
+theorem expectIov_nz {ps : Nat} (hps : 0 < ps) (F : List Nat) (c : Nat) (T : List Nat) (r : Nat) (hr : 0 < r) :
+    ((expectIov ps F c T r).filter nz).map Prod.fst = F ++ [c] := by
+  cases T with
+  | nil =>
+    have h1 : nz (c, r) = true := by simp [nz]; omega
+    simp [expectIov, List.filter_append, filter_nz_full hps, h1]
+  | cons t T' =>
+    simp only [expectIov, List.filter_append, List.map_append, filter_nz_full hps,
+      chainIov_nz hps c r hr (t :: T') _ (by simp)]
+    rw [← List.append_assoc, List.take_append_drop]
+
+theorem expectIov_isz {ps : Nat} (hps : 0 < ps) (F : List Nat) (c : Nat) (T : List Nat) (r : Nat) (hr : 0 < r) :
+    ((expectIov ps F c T r).filter isz).map Prod.fst = T := by
+  cases T with
+  | nil =>
+    have h1 : isz (c, r) = false := by simp [isz]; omega
+    simp [expectIov, List.filter_append, filter_isz_full hps, h1]
+  | cons t T' =>
+    simp only [expectIov, List.filter_append, List.map_append, filter_isz_full hps,
+      chainIov_isz hps c r hr (t :: T') _]
+    simp
+
+theorem expectIov_bytes {α} (d : DMem α) {ps : Nat} (F : List Nat) (c : Nat) (T : List Nat) (r : Nat)
+    (hF : ∀ p ∈ F, (d p).length ≤ ps) (hc : (d c).length ≤ r) :
+    iovBytes d (expectIov ps F c T r) = F.flatMap d ++ d c := by
+  cases T with
+  | nil =>
+    have h1 : (d c).take r = d c := List.take_of_length_le hc
+    simp only [expectIov, iovBytes_append, iovBytes_full d F hF]
+    simp [iovBytes, h1]
+  | cons t T' =>
+    simp only [expectIov, iovBytes_append]
+    rw [iovBytes_full d (F.take (K - 1)) (fun p hp => hF p (List.mem_of_mem_take hp)),
+      chainIov_bytes d c r hc (t :: T') _ (by simp) (fun p hp => hF p (List.mem_of_mem_drop hp)),
+      ← List.append_assoc, ← List.flatMap_append, List.take_append_drop]
 
 end Babylon.Log
